@@ -118,6 +118,7 @@ static const int BADFLAGS[] = {JWT_CLAIM_EXP, JWT_CLAIM_NBF, JWT_CLAIM_IAT, JWT_
 
 // an application callback that only looks at the token (reads two claims) and leaves key, algorithm and token alone: claim checks are the same with it
 static int observe_cb(jwt_t *jwt, jwt_config_t *) { jwt_value_t v = val_get(JWT_VALUE_STR, "iss"); (void)jwt_claim_get(jwt, &v); v = val_get(JWT_VALUE_INT, "exp"); (void)jwt_claim_get(jwt, &v); return 0; }
+static int keyonly_cb(jwt_t *, jwt_config_t *cfg) { cfg->key = (const jwk_item_t *)cfg->ctx; return 0; }   // a key lookup: sets the key, leaves the algorithm to the key
 // returns "" if the run agrees with the model; else the violated clause (signature suffix)
 static std::string run_ops(const std::vector<Op> &ops, bool count) {
   Stats &st = stats(); CURP = &ops; TRACE.clear();
@@ -125,9 +126,13 @@ static std::string run_ops(const std::vector<Op> &ops, bool count) {
   jwt_checker_t *ck1 = jwt_checker_new();   // unsigned tokens, no key
   jwt_checker_t *ck2 = jwt_checker_new();   // HS256 tokens
   jwt_checker_setkey(ck2, JWT_ALG_HS256, HSLK->item);
-  jwt_checker_t *cks[2] = {ck1, ck2};
+  // the same key handed over the other two ways: the algorithm comes from the key's own alg attribute (setkey without algorithm); the key comes from a callback
+  static LKey *HSATTR = nullptr; if (!HSATTR) { JwkOpts ao; ao.alg = "HS256"; ao.priv = true; HSATTR = new LKey(jwk_json(*HSKEY, ao)); }
+  jwt_checker_t *ck3 = jwt_checker_new(); jwt_checker_setkey(ck3, JWT_ALG_NONE, HSATTR->item);
+  jwt_checker_t *ck4 = jwt_checker_new(); jwt_checker_setcb(ck4, keyonly_cb, (void *)HSATTR->item);
+  jwt_checker_t *cks[4] = {ck1, ck2, ck3, ck4};
   static int cbctx = 0; bool with_cb = !ops.empty() && ((ops[0].a ^ ops[0].b) & 1);   // every second sequence: both checkers have an observing callback
-  if (with_cb) { for (auto c : cks) jwt_checker_setcb(c, observe_cb, &cbctx); if (count) st.cls("sequences-with-an-observing-callback"); TRACE += "observing-callback; "; }
+  if (with_cb) { for (auto c : cks) if (c != ck4) jwt_checker_setcb(c, observe_cb, &cbctx); if (count) st.cls("sequences-with-an-observing-callback"); TRACE += "observing-callback; "; }
   std::string bad; bool after_del = false;
   for (const Op &o : ops) {
     if (!bad.empty()) break;
@@ -145,13 +150,13 @@ static std::string run_ops(const std::vector<Op> &ops, bool count) {
     case OP_CLOCK: { m.now = o.a % 7 < 5 ? CLOCKS[o.a % 7] : (long long)((unsigned long long)o.v % (1ULL << 41)); set_now((time_t)m.now); TRACE += "now=" + std::to_string(m.now) + "; "; break; }
     case OP_VERIFY: {
       Built b = build_payload(m, o);
-      int which = o.signed_ & 1;
+      int which = o.signed_ & 1; if (which) which = 1 + (int)((unsigned)(o.a ^ o.b) % 3);   // signed: explicit algorithm / algorithm from the key / key from a callback
       std::string tok = which ? ref_token(*HSKEY, JWT_ALG_HS256, "{\"alg\":\"HS256\",\"typ\":\"JWT\"}", b.payload) : ref_token(*HSKEY, JWT_ALG_NONE, "{\"alg\":\"none\"}", b.payload);
       // the harness's own idea of 'parses': jansson with the library's flags
       if (b.parse_ok && !J::parse(b.payload)) b.parse_ok = false;
       std::string why; bool want = model_accepts(m, b, why);
       int ret = jwt_checker_verify(cks[which], tok.c_str());
-      TRACE += std::string("verify(") + (which ? "HS256" : "none") + " " + b.payload + ")=" + std::to_string(ret) + " model:" + why + "; ";
+      TRACE += std::string("verify(") + (which == 0 ? "none" : which == 1 ? "HS256" : which == 2 ? "HS256,alg-from-key" : "HS256,key-from-callback") + " " + b.payload + ")=" + std::to_string(ret) + " model:" + why + "; ";
       if (count) {
         st.evaluations++; st.cls(ret == 0 ? "accept" : "reject"); st.cls("decided-by:" + why);
         bool nt = after_del || b.klass.find("@-1") != std::string::npos || b.klass.find("@0") != std::string::npos || b.klass.find("@1") != std::string::npos || b.klass.find("wrongtype") != std::string::npos || b.klass.find("confusion") != std::string::npos || b.klass.find("escaped-nul") != std::string::npos;
@@ -180,7 +185,7 @@ static std::string run_ops(const std::vector<Op> &ops, bool count) {
       if (m.on[i] ? (!g || m.val[i] != g) : (g != nullptr)) bad = "claim-get-differs-from-configuration";
     }
   }
-  jwt_checker_free(ck1); jwt_checker_free(ck2);
+  jwt_checker_free(ck1); jwt_checker_free(ck2); jwt_checker_free(ck3); jwt_checker_free(ck4);
   return bad;
 }
 
